@@ -143,6 +143,8 @@ def corpus():
     add("get-value-ends-with-CR", lambda c: c.get("k"), V + b"k 0 3\r\nab\r\r\nEND\r\n")
     add("get-value-only-CRs", lambda c: c.get("k"), V + b"k 0 2\r\r\r\nEND\r\n")
     add("get-empty-value", lambda c: c.get("k"), V + b"k 0 0\r\n\r\nEND\r\n")
+    add("get-value-starts-with-LFs", lambda c: c.get("k"), V + b"k 0 5\r\n\n\nab\n\r\nEND\r\n")
+    add("get_many-values-of-LFs-and-CRs", lambda c: c.get_many(["k", "j"]), V + b"k 0 2\r\n\n\n\r\n" + V + b"j 0 3\r\n\n\r\n\r\nEND\r\n")
     add("get-miss", lambda c: c.get("k", "dflt"), b"END\r\n")
     add("gets", lambda c: c.gets("k"), V + b"k 0 2 77\r\nhi\r\nEND\r\n")
     add("gat", lambda c: c.gat("k", 10), V + b"k 0 2\r\nhi\r\nEND\r\n")
@@ -168,6 +170,9 @@ def corpus():
     add("raw-aws-token", lambda c: c.raw_command(b"config get cluster", end_tokens=b"\n\r\nEND\r\n"),
         b"CONFIG cluster 0 30\r\n1\nh|1.2.3.4|11211\n\r\nEN\n\r\nEND\r\n")
     add("raw-mn", lambda c: c.raw_command(b"mn", end_tokens=b"MN\r\n"), b"MMN\r\n")
+    add("raw-one-byte-token", lambda c: c.raw_command(b"version", end_tokens=b"\n"), b"VERSION some reply\r\n")
+    add("raw-one-byte-token-dot", lambda c: c.raw_command(b"x", end_tokens=b"."), b"abc def,;:.")
+    add("raw-two-byte-token", lambda c: c.raw_command(b"x", end_tokens=b"ab"), b"aaa aab")
     return sc
 
 
